@@ -10,24 +10,59 @@ open Generated
 /-- `EncodeObjectKey(userKey, revision)`: magic ++ key ++ split ++ be64 rev. -/
 def encode (k : Bytes) (r : Nat) : Bytes := magic ++ (k ++ splitByte :: be64 r)
 
-/-- `backend.encodeRangeBound` (pkg/backend/range.go, /repo 146f0bb): how `List`, `Count` and `GetPartitions`
-translate a raw range bound into the internal key space. A bound of the form `K ++ [0]` — what etcd clients
-send for "just after K": the continue key of a paginated list, the end of a single-key range — is encoded
-just after the last possible version of `K` (`EncodeObjectKey(K, MaxUint64) ++ [0]`), because the plain
-encoding `encode (K ++ [0]) 0` sorts BEFORE the versions of `K` (byte 0 is smaller than the split byte:
-`KB.C10.old_bound_encoding_defect`). Every other bound is the index key of the raw bound, as before. -/
+/-- The loop of `backend.encodeRangeBound` (pkg/backend/range.go, /repo 23c8b93): `some P` = the raw bound has a
+byte at or below the key/revision separator (`keyRevisionSeparator`, regenerated as `rangeBoundSeparator`), `P`
+being what stands in front of the FIRST such byte (`raw[:i]`); `none` = no such byte. -/
+def cutLow : Bytes → Option Bytes
+  | [] => none
+  | c :: rest => if c ≤ rangeBoundSeparator then some [] else (cutLow rest).map (c :: ·)
+
+/-- `backend.encodeRangeBound` (pkg/backend/range.go, /repo 23c8b93): how `List`, `Count` and `GetPartitions`
+translate a raw range bound into the internal key space. Keys never contain a byte at or below the byte that
+separates key and revision; bounds may: `K ++ [0]` is what etcd clients send for "just after K" (the continue
+key of a paginated list, the end of a single-key range), and ANY bound `P ++ c :: rest` with `c` at or below the
+separator lies, in raw byte order, after `P` and before every longer key starting with `P`. Such a bound is
+encoded just after the last possible version of `P` (`EncodeObjectKey(P, MaxUint64) ++ [0]`), because the plain
+encoding `encode (P ++ c :: rest) 0` sorts BEFORE (or among) the versions of `P`
+(`KB.C10.old_bound_encoding_defect`, `KB.C10.bound_146f0bb_defect`). A bound without such a byte is the index
+key of the raw bound, as before. -/
 def encodeBound (raw : Bytes) : Bytes :=
+  match cutLow raw with
+  | some P => encode P (2 ^ 64 - 1) ++ [0]
+  | none => encode raw 0
+
+/-- `backend.encodeRangeBound` as it was from /repo 146f0bb up to 23c8b93: only ONE trailing zero byte was
+recognised. Kept for the refutations (`KB.C10.bound_146f0bb_defect`). -/
+def encodeBoundOld (raw : Bytes) : Bytes :=
   if raw.getLast? = some 0 then encode raw.dropLast (2 ^ 64 - 1) ++ [0] else encode raw 0
 
-/-- Result of `Decode`; `panic` marks the inputs on which the Go code indexes out of range. -/
+/-- ... and before 146f0bb: the index key of the raw bound, whatever its bytes
+(`KB.C10.old_bound_encoding_defect`). -/
+def encodeBoundOldest (raw : Bytes) : Bytes := encode raw 0
+
+/-- Result of `Decode`. `panic` marked the inputs on which the Go code indexed out of range (keys shorter than
+magic + split byte + revision); since /repo 5ace897 `Decode` reports those as errors and the constructor is
+unreachable (`KB.decode_never_panics`) — it stays in the type because the consumers match on it. -/
 inductive Dec where
   | ok (k : Bytes) (r : Nat)
   | err
   | panic
   deriving Repr, DecidableEq
 
-/-- `Decode(internalKey)` with the Go slice-bound behaviour made explicit. -/
+/-- the shortest internal key: magic, split byte, 8 revision bytes (`len(magicBytes)+1+8`) -/
+def minKeyLength : Nat := magic.length + 1 + 8
+
+/-- `Decode(internalKey)` (pkg/backend/coder/normal.go, /repo 5ace897): a key too short to hold magic, split
+byte and revision is an error, like a wrong magic number or split byte. -/
 def decode (ik : Bytes) : Dec :=
+  if ik.length < minKeyLength then .err
+  else if ik.take magic.length != magic then .err
+  else if ik.getD (ik.length - 9) 0 != splitByte then .err
+  else .ok ((ik.drop magic.length).take (ik.length - 9 - magic.length)) (fromBE (ik.drop (ik.length - 8)))
+
+/-- `Decode` before /repo 5ace897, with the Go slice-bound behaviour made explicit: `panic` on the inputs on
+which the code indexed out of range. Kept for the refutation (`KB.C10.old_decode_panics`). -/
+def decodeOld (ik : Bytes) : Dec :=
   if ik.length < magic.length then .panic
   else if ik.take magic.length != magic then .err
   else if ik.length < 9 then .panic
